@@ -336,9 +336,22 @@ class SGen(L.LGen):
         if d > 0 and self.r.random() < 0.12:
             # join over a heterogeneous list: plain data, literals, set-block variables, macro results in any order
             self.count("join")
-            return ("JN", self.expr(sc, 0) if self.r.random() < 0.7 else ("L", self.r.choice([", ", "", "-", "<br>", "&"])),
-                    [self.expr(sc, d - 1) for _ in range(self.r.randint(0, 4))])
+            return ("JN", self.frag(sc) if self.r.random() < 0.55 else ("L", self.r.choice([", ", "", "-", "<br>", "&"])),
+                    [self.frag(sc) if self.r.random() < 0.5 else self.expr(sc, d - 1) for _ in range(self.r.randint(0, 4))])
         return super().expr(sc, d)
+
+    def frag(self, sc):
+        """an expression that is likely a rendered FRAGMENT (Markup under autoescape): a macro result or a local
+        variable (set-block / set targets, loop variables and parameters have names > 100), else any variable"""
+        vs, ms, hc = sc
+        cands = [m for m in ms if not m[2]]
+        if cands and self.r.random() < 0.5:
+            m = self.r.choice(cands)
+            return ("M", m[0], [self.expr(sc, 0) for _ in range(m[1])])
+        loc = [v for v in vs if v > 100]
+        if loc:
+            return ("V", self.r.choice(loc))
+        return self.expr(sc, 0)
 
     def sub_template(self, macros_only=False):
         tid = self.next_tid
